@@ -63,20 +63,44 @@ CfgOf(c) == [name |-> c.name, nlevels |-> c.nlevels,
 (* Pre: model steps that precede the observation point.  Returns [st, errs] *)
 R(s, e) == [st |-> s, errs |-> e]
 
+SelfStopped(s, sn, d) == Eng(s, d) = "CMA" /\ d \in SnapIds(sn) /\ SnapRec(sn, d).act = 0
 \* Local searches consult nothing: those that ran since the previous event are recognised by their objective calls (or,
 \* when calls may be invisible - budget refusals, memoised values - by the observed tree showing them stopped).  The
 \* order in which the demes of a metaepoch get their turn is not assumed.
 RanSilently(s, B, sn, h) ==
-    /\ Eng(s, h) = "LOCAL" /\ s.D[h].active
-    /\ \/ BatchCalls(B, h) > 0
-       \/ ((s.cfg.cutoff = 1 \/ s.cfg.cache = 1) /\ h \in SnapIds(sn) /\ SnapRec(sn, h).act = 0)
+    \/ /\ Eng(s, h) = "LOCAL" /\ s.D[h].active
+       /\ \/ BatchCalls(B, h) > 0
+          \/ ((s.cfg.cutoff = 1 \/ s.cfg.cache = 1) /\ h \in SnapIds(sn) /\ SnapRec(sn, h).act = 0)
+    \/ /\ Eng(s, h) = "CMA" /\ s.D[h].active /\ BatchCalls(B, h) > 0 /\ SelfStopped(s, sn, h)
+\* Where and how often a deme consults the conditions inside its metaepoch is not fixed by any property (an engine that
+\* has terminated itself need not ask anybody; the local condition may be asked before the global one, which is then asked
+\* only if the deme would go on).  A turn the deme ended without the consults the model was waiting for is closed here:
+\* evaluations made since the last event are a further iteration, the metaepoch is committed, and a deme that the observed
+\* tree shows stopped has terminated itself - which only CMA-ES may (any other engine: C06_StopCauses on the snapshot).
+CloseTurn(s, B, sn) ==
+    LET d  == s.cur
+        k  == BatchCalls(B, d)
+        s1 == IF s.await = "-" /\ k > 0 /\ Eng(s, d) \in PopEngines \cup ShotEngines
+              THEN (IF EnIter(s, d) THEN DoIter(s, d, k) ELSE [DoIter(s, d, k) EXCEPT !.gen = s.gen]) ELSE s
+        s2 == IF s1.await = "gsc" \/ (s1.await = "-" /\ s1.gen > 0) THEN [Commit(s1, d) EXCEPT !.await = "lsc"] ELSE s1
+    IN IF s2.await = "lsc" THEN DoLsc(s2, d, FALSE, SelfStopped(s2, sn, d)) ELSE s
+CloseCur(s, e) ==
+    IF s.pc = "meta" /\ s.cur # NoDeme /\ s.cur \in Ids(s) /\ "snap" \in DOMAIN e /\ "b" \in DOMAIN e
+       /\ ~(e.e \in {"gsc", "lsc"} /\ "d" \in DOMAIN e /\ e.d = s.cur /\ (e.e = "lsc" \/ e.by = "deme"))
+    THEN CloseTurn(s, e.b, e.snap) ELSE s
+
+\* a whole turn without any consult: one-shot local searches, and a CMA-ES deme whose engine stopped at once
+SilentTurn(s, B, sn, h) ==
+    IF Eng(s, h) = "LOCAL" THEN DoLocalRun(s, h, BatchCalls(B, h))
+    ELSE CloseTurn(DoBegin(s, h), B, sn)
+
 RECURSIVE Advance(_, _, _, _, _)
 Advance(s, B, sn, target, errs) ==
     IF s.pc # "meta" \/ s.cur # NoDeme \/ s.queue = <<>> THEN R(s, errs)
     ELSE LET ran == {i \in DOMAIN s.queue : s.queue[i] # target /\ RanSilently(s, B, sn, s.queue[i])} IN
          IF ran = {} THEN R(s, errs)
          ELSE LET h == s.queue[CHOOSE i \in ran : \A j \in ran : i <= j]
-              IN Advance(DoLocalRun(s, h, BatchCalls(B, h)), B, sn, target, errs)
+              IN Advance(SilentTurn(s, B, sn, h), B, sn, target, errs)
 
 RECURSIVE InitAll(_, _)
 InitAll(s, B) == IF s.pendingInit = <<>> THEN s
@@ -120,6 +144,13 @@ ImplicitLoopHead(s, e) ==
               IF ~Manual(s) /\ GscModelled(s1) /\ GscVal(s1) THEN {"C05_ReturnsAtFirstBoundary"} ELSE {})
     ELSE R(s, {})
 
+\* the deme asks the global condition once more after its metaepoch is complete (e.g. after its local condition said
+\* FALSE): no evaluation, nothing moves; a TRUE verdict stops it (Post)
+Trailing(s, e) ==
+    /\ s.pc = "meta" /\ s.cur = NoDeme /\ e.d \in Ids(s) /\ e.d \in DOMAIN s.D0
+    /\ ~(\E i \in DOMAIN s.queue : s.queue[i] = e.d)
+    /\ s.D[e.d].me = s.D0[e.d].me + 1 /\ BatchCalls(e.b, e.d) = 0
+
 PreAt(s, e) ==
     CASE e.e = "gsc" /\ e.by = "deme" ->
            LET a == Advance(s, e.b, e.snap, e.d, {})
@@ -134,7 +165,9 @@ PreAt(s, e) ==
                      THEN [s2a EXCEPT !.await = "-", !.D[e.d].me = @ - 1,
                                       !.D[e.d].gens = SubSeq(@, 1, Len(@) - 1)]
                      ELSE s2a
-           IN IF e.d \in Ids(s2) /\ EnIter(s2, e.d)
+           IN IF Trailing(s1, e)
+              THEN R(s1, a.errs)
+              ELSE IF e.d \in Ids(s2) /\ EnIter(s2, e.d)
               THEN R(DoIter(s2, e.d, BatchCalls(e.b, e.d)), a.errs)
               ELSE IF e.d \in Ids(s2) /\ s2.pc = "meta" /\ s2.cur = e.d /\ s2.await = "-"
                         /\ Eng(s2, e.d) \in PopEngines \cup ShotEngines
@@ -145,7 +178,15 @@ PreAt(s, e) ==
       [] e.e = "lsc" ->     \* a local condition consulted outside the protocol is a stutter of the model: if it
                             \* stops the deme, the next snapshot shows a deme that stopped without a cause
            IF e.d \in Ids(s) /\ EnLsc(s, e.d) THEN R(s, {})
-           ELSE LET a == Advance(s, e.b, e.snap, e.d, {}) IN R(a.st, a.errs \cup {"Desync"})   \* local searches before it still ran
+           ELSE LET a  == Advance(s, e.b, e.snap, e.d, {})      \* local searches before it still ran
+                    s1 == a.st
+                    \* the local condition asked right after the last iteration, before (or instead of) the global one
+                    s2 == IF s1.cur = NoDeme /\ EnBeginAny(s1, e.d) /\ e.d \in Ids(s1) /\ Eng(s1, e.d) # "LOCAL"
+                          THEN DoBegin(s1, e.d) ELSE s1
+                    s3 == IF e.d \in Ids(s2) /\ EnIter(s2, e.d) THEN DoIter(s2, e.d, BatchCalls(e.b, e.d)) ELSE s2
+                    s4 == IF e.d \in Ids(s3) /\ EnGenGsc(s3, e.d) /\ s3.gen >= GensOf(s3, e.d)
+                          THEN DoGenGsc(s3, e.d, FALSE, FALSE) ELSE s3
+                IN IF e.d \in Ids(s4) /\ EnLsc(s4, e.d) THEN R(s4, a.errs) ELSE R(a.st, a.errs \cup {"Desync"})
       [] e.e = "gsc" /\ e.by = "step" ->
            LET a == Advance(s, e.b, e.snap, NoDeme, {}) IN
            IF EnPostGsc(a.st) THEN a ELSE R(Force(a.st, e), a.errs \cup {"Desync"})
@@ -182,7 +223,7 @@ PreAt(s, e) ==
       [] OTHER -> R(s, {})
 
 Pre(s, e) == LET h == ImplicitLoopHead(s, e)
-                 p == PreAt(h.st, e)
+                 p == PreAt(CloseCur(h.st, e), e)
              IN R(p.st, h.errs \cup p.errs)
 
 -----------------------------------------------------------------------------
@@ -213,6 +254,15 @@ Compare(s, sn) ==
                               \/ (d # RootId /\ SnapRec(sn, d).par # s.D[d].parent)
          THEN {"C07_Structure"} ELSE {})
    \cup (IF SnapLevels(sn) # s.L /\ ids = Ids(s) THEN {"Info_LevelOrder"} ELSE {})
+
+\* A deme may open the record of its running metaepoch before the metaepoch is complete (generations appended one by one):
+\* while its turn is open the observed metaepoch count may already be one ahead of the model, which commits the metaepoch
+\* at the end of the turn - where the two must agree.  The view hides the record that is still being written.
+OpenTurn(s, d) == s.pc = "meta" /\ s.cur = d /\ d \in Ids(s) /\ s.await \in {"gsc", "-"} /\ Eng(s, d) \notin ShotEngines
+View(s, sn) ==
+    [sn EXCEPT !.demes = [i \in DOMAIN sn.demes |->
+        LET r == sn.demes[i] IN
+        IF OpenTurn(s, r.id) /\ r.me = s.D[r.id].me + 1 THEN [r EXCEPT !.me = s.D[r.id].me, !.gens = s.D[r.id].gens] ELSE r]]
 
 \* does the model state differ from the observed projection in any field (flagged or not)?
 Differs(s, sn) ==
@@ -273,6 +323,7 @@ PostClauses(s) ==
 LookaheadInactive(d) ==
     /\ l < Len(Tr) /\ HasSnap(Tr[l + 1])
     /\ d \in SnapIds(Tr[l + 1].snap) /\ SnapRec(Tr[l + 1].snap, d).act = 0
+    /\ BatchCalls(Tr[l + 1].b, d) = 0       \* (it did not go on evaluating after this consult)
 
 RoundOf(e) == [i \in DOMAIN e.ret |-> <<e.ret[i][1], Len(e.ret[i][2])>>]
 
@@ -293,6 +344,9 @@ Post(s, e) ==
                      IF EnGenGsc(s, e.d)
                      THEN LET self == ~e.v /\ Eng(s, e.d) = "CMA" /\ LookaheadInactive(e.d)
                           IN R(DoGenGsc(s, e.d, e.v, self), verr \cup latch)
+                     ELSE IF Trailing(s, e) /\ e.v
+                     THEN R([s EXCEPT !.D[e.d].active = FALSE, !.D[e.d].why = IF s.D[e.d].active THEN "gsc" ELSE @,
+                                      !.gscSeen = TRUE, !.gscAt = IF @ = -1 THEN s.steps ELSE @], verr \cup latch)
                      ELSE R(s, verr \cup latch)
                 [] e.by = "step" -> R(IF EnPostGsc(s) THEN DoPostGsc(s, e.v) ELSE s, verr \cup latch)
                 [] e.by = "run"  -> R(IF EnLoopCheck(s) THEN DoLoopCheck(s, e.v) ELSE s, verr \cup latch)
@@ -455,10 +509,14 @@ MemCalls(m, s, e) ==
         mn == IF calls = {} THEN m.mincall
               ELSE Min({c[2] : c \in calls} \cup (IF m.mincall = -1 THEN {} ELSE {m.mincall}))
         \* per-deme iteration call sets: a consult by deme d closes one iteration of d
-        upd == IF e.e = "gsc" /\ e.by = "deme"
+        \* (also its local condition, when the deme asks that one first after its last iteration; a consult after the
+        \* metaepoch is complete - s.cur = NoDeme - closes nothing)
+        closes == \/ (e.e = "gsc" /\ e.by = "deme" /\ ~(s.pc = "meta" /\ s.cur = NoDeme))
+                  \/ (e.e = "lsc" /\ BatchGids(e.b, e.d) # {})
+        upd == IF closes
                THEN [m.d EXCEPT ![e.d] = [MemOf(m, e.d) EXCEPT !.iters = Append(@, BatchGids(e.b, e.d))]]
                ELSE m.d
-        d2 == IF e.e = "gsc" /\ e.by = "deme" /\ e.d \notin DOMAIN m.d
+        d2 == IF closes /\ e.d \notin DOMAIN m.d
               THEN [x \in DOMAIN m.d \cup {e.d} |-> IF x = e.d
                        THEN [NoMem EXCEPT !.iters = <<BatchGids(e.b, e.d)>>] ELSE m.d[x]]
               ELSE upd
@@ -559,9 +617,10 @@ Step ==
            p    == Pre(st, e)
            \* a consult from outside the protocol may see the tree in the middle of a round: only the ban is checked
            other == e.e = "gsc" /\ e.by = "other"
+           snv  == View(p.st, sn)
            cmp  == IF other THEN (IF SnapIds(sn) \cap p.st.ban # {} THEN {"C05_NoSproutAfterGsc"} ELSE {})
-                   ELSE Compare(p.st, sn)
-           s2   == IF ~other /\ Differs(p.st, sn) THEN Resync(p.st, sn) ELSE p.st
+                   ELSE Compare(p.st, snv)
+           s2   == IF ~other /\ Differs(p.st, snv) THEN Resync(p.st, snv) ELSE p.st
            m1   == MemCalls(mem, s2, e)
            full == sn.full = 1
            fc   == IF full THEN FullClauses(s2, m1, sn) ELSE {}
